@@ -12,6 +12,7 @@ mod dead_target;
 mod runner;
 mod once;
 mod state;
+mod spawned;
 
 fn main()
 {
@@ -25,6 +26,7 @@ fn main()
         "runner" => runner::run(&args[1..]),
         "once" => once::run(&args[1..]),
         "state" => state::run(&args[1..]),
+        "spawned" => spawned::run(&args[1..]),
         _ => { eprintln!("unknown scenario {}", args[0]); std::process::exit(3); }
     };
     println!("{}", res.json);
